@@ -111,7 +111,11 @@ func (s *state) walk(node ast.Node) {
 	case *ast.TemplateNode:
 		s.visitTemplate(node)
 	case *ast.ListNode:
+		// a command list is a block: {let} variables defined in it go out of
+		// scope (and stop shadowing outer names) when it ends.
+		s.scope.push()
 		s.visitChildren(node)
+		s.scope.pop()
 
 		// Output nodes ----------
 	case *ast.RawTextNode:
@@ -146,12 +150,16 @@ func (s *state) walk(node ast.Node) {
 	case *ast.CallNode:
 		s.visitCall(node)
 	case *ast.LetValueNode:
-		s.jsln("var ", s.scope.makevar(node.Name), " = ", node.Expr, ";")
+		// the variable is not visible in its own definition: translate the
+		// expression before binding the name.
+		var expr = s.block(node.Expr)
+		s.jsln("var ", s.scope.makevar(node.Name), " = ", expr, ";")
 	case *ast.LetContentNode:
 		var oldBufferName = s.bufferName
-		s.bufferName = s.scope.makevar(node.Name)
+		s.bufferName = s.scope.newvar(node.Name)
 		s.jsln("var ", s.bufferName, " = '';")
 		s.walk(node.Body)
+		s.scope.bind(node.Name, s.bufferName)
 		s.bufferName = oldBufferName
 
 	// Values ----------
@@ -537,7 +545,10 @@ func (s *state) visitForeach(node *ast.ForNode) {
 		itemList,
 		itemListLen,
 		itemIndex = s.scope.pushForEach(node.Var)
-	defer s.scope.pop()
+	// the loop variable is visible in the loop body only: not in the list
+	// expression and not in {ifempty}.
+	var loopFrame = s.scope.stack[len(s.scope.stack)-1]
+	s.scope.pop()
 	s.jsln("var ", itemList, " = ", node.List, ";")
 	s.jsln("var ", itemListLen, " = ", itemList, ".length;")
 	if node.IfEmpty != nil {
@@ -547,7 +558,9 @@ func (s *state) visitForeach(node *ast.ForNode) {
 	s.jsln("for (var ", itemIndex, " = 0; ", itemIndex, " < ", itemListLen, "; ", itemIndex, "++) {")
 	s.indentLevels++
 	s.jsln("var ", itemData, " = ", itemList, "[", itemIndex, "];")
+	s.scope.stack = append(s.scope.stack, loopFrame)
 	s.walk(node.Body)
+	s.scope.pop()
 	s.indentLevels--
 	s.jsln("}")
 	if node.IfEmpty != nil {
